@@ -148,6 +148,16 @@ def grammar_case(tier, seed, index, spec=None):
     if spec is None:
         forced = [rng.choice(G.FORCED), rng.choice(['nt-without-rules', 'unreachable-nt', 'plain'])]
         spec = G.gen_spec(rng, cls, forced, allow_inf=False)
+        if index % 3 == 1:
+            # a nonterminal that is only declared: no rule, on no right-hand side
+            lab = rng.choice(sorted(spec['domains']))
+            spec['nonterminals']['N_never'] = [lab] if rng.random() < 0.5 else []
+        if index % 20 == 7:
+            # the start symbol itself has no rules (its value is zero), or the grammar has no rules at all
+            if rng.random() < 0.5:
+                spec['rules'] = [r for r in spec['rules'] if r['lhs'] != spec['start']]
+            else:
+                spec['rules'] = []
     viols = []
     opts = dict(explicit_ids=rng.random() < 0.5)
     order = list(range(len(spec['rules'])))
@@ -184,6 +194,15 @@ def grammar_case(tier, seed, index, spec=None):
                 viols.append(C.viol(f"sum_products-exception:{out['exc_type']}:{out.get('where', '')}", out['exc'], traceback=out['tb']))
                 continue
             keys = {k.name for k in out['value']}
+            if S == 'real':
+                # every nonterminal receives a value, the start symbol in particular (zero when it has no rules)
+                ntrace = len(trace)
+                oz = C.call(lambda: fggs.sum_product(fgg2, semiring=G.make_semiring(fggs, S, torch.float64), kmax=3, tol=1e-3))
+                del trace[ntrace:]          # the order check below is about the sum_products call
+                if not oz['ok']:
+                    viols.append(C.viol(f"sum_product-exception:{oz['exc_type']}:{oz.get('where', '')}", oz['exc'], traceback=oz['tb']))
+                elif not any(r['lhs'] == spec['start'] for r in spec['rules']) and bool((oz['value'].to_dense() != 0).any()):
+                    viols.append(C.viol('start-without-rules-nonzero', f'start symbol has no rules but sum_product = {oz["value"].to_dense().tolist()}'))
             missing = set(spec['nonterminals']) - keys
             if missing:
                 viols.append(C.viol('nonterminal-without-value', f'sum_products lacks {sorted(missing)}'))
@@ -207,7 +226,8 @@ def grammar_case(tier, seed, index, spec=None):
     for v in viols:
         v['spec'] = spec
     nt = len(spec['nonterminals'])
-    return dict(cls='grammar-' + cls, features=sorted(G.features_of(spec)) + (['rhs-with-removed-edge-or-unused-label'] if index % 2 else []), verdict='violated' if viols else 'held',
+    return dict(cls='grammar-' + cls, features=sorted(G.features_of(spec)) + (['rhs-with-removed-edge-or-unused-label'] if index % 2 else []) + (['nt-never-mentioned'] if 'N_never' in spec['nonterminals'] else [])
+                + (['start-without-rules'] if not any(r['lhs'] == spec['start'] for r in spec['rules']) else []) + (['no-rules-at-all'] if not spec['rules'] else []), verdict='violated' if viols else 'held',
                 key=G.spec_key(spec), nontrivial=nt >= 2, violations=viols, hooks=hooks,
                 sample=dict(spec=G.describe(spec)), obs=dict(grammars=1, sccs_traced=len(trace)))
 
